@@ -3,6 +3,7 @@
 
 mod basic;
 mod report;
+mod structural;
 
 use report::Report;
 use wv_gen::log::{self, Rec};
@@ -102,6 +103,7 @@ fn main() {
                 "C08" => basic::c08(c, second.get(&c.idx).copied(), !logs2.is_empty(), &mut rep),
                 "C12" => basic::c12(c, &mut rep),
                 "C20" => basic::c20(c, &mut rep),
+                "C03" | "C04" => structural::run(c, &mut rep, &prop),
                 _ => rep.harness_error(&format!("no judge for {}", prop)),
             }
         }
